@@ -184,6 +184,10 @@ func (s *c18srv) finish(kind string, nominal interface{}) []byte {
 		return nb
 	}
 	mt, ok := s.cfg.Mut.apply(tree)
+	if !ok && idx > 0 {
+		// "corrupt every response": a later response (e.g. the re-requested subset of objects) may not have the node; send it unchanged
+		return nb
+	}
 	if !ok {
 		s.setToolErr(fmt.Sprintf("mutation %s does not apply to the %s response %s", s.cfg.Mut, kind, scrub(string(nb))))
 		return nb
